@@ -118,6 +118,107 @@ MutSeps(T, m) ==
     LET n == Len(T)
     IN  IF m.j >= 2 /\ m.j <= n /\ (m.j + m.a + Salt) % 4 = 0 THEN NLAt(n, m.j) ELSE AllSep(n, "sp")
 
+-----------------------------------------------------------------------------
+(* family "after" (12.7, 12.8, 12.9, 12.12): the context a construct opens   *)
+(* for break / continue / return / labels ends with the construct.  For each *)
+(* construct that opens one, an (il)legal jump is placed after the construct *)
+(* has closed: in the same scope, inside blocks / if / try / labelled block, *)
+(* in a function declared after it, inside a later loop (legal), before it,  *)
+(* after two of them, and all of that inside a function body.                *)
+PAR(e) == <<TP("(")>> \o e \o <<TP(")")>>
+BRC(b) == <<TP("{")>> \o b \o <<TP("}")>>
+CtxPool == <<
+    <<TK("switch")>> \o PAR(<<TI("a")>>) \o BRC(<<>>),
+    <<TK("switch")>> \o PAR(<<TI("a")>>) \o BRC(<<TK("case"), TNum(<<49>>), TP(":"), TK("break"), TP(";"), TK("default"), TP(":")>>),
+    <<TK("while")>> \o PAR(<<TI("a")>>) \o BRC(<<TK("break"), TP(";")>>),
+    <<TK("while")>> \o PAR(<<TI("a")>>) \o <<TK("continue"), TP(";")>>,
+    <<TK("do"), TP(";"), TK("while")>> \o PAR(<<TI("a")>>) \o <<TP(";")>>,
+    <<TK("do")>> \o BRC(<<TK("continue"), TP(";")>>) \o <<TK("while")>> \o PAR(<<TI("a")>>) \o <<TP(";")>>,
+    <<TK("for")>> \o PAR(<<TP(";"), TP(";")>>) \o BRC(<<TK("break"), TP(";")>>),
+    <<TK("for")>> \o PAR(<<TI("a"), TK("in"), TI("b")>>) \o BRC(<<TK("continue"), TP(";")>>),
+    <<TK("for")>> \o PAR(<<TK("var"), TI("a"), TK("in"), TI("b")>>) \o <<TP(";")>>,
+    <<TI("L"), TP(":"), TK("while")>> \o PAR(<<TI("a")>>) \o BRC(<<TK("continue"), TI("L"), TP(";")>>),
+    <<TI("L"), TP(":")>> \o BRC(<<TK("break"), TI("L"), TP(";")>>),
+    <<TI("L"), TP(":"), TK("switch")>> \o PAR(<<TI("a")>>) \o BRC(<<TK("default"), TP(":"), TK("break"), TI("L"), TP(";")>>),
+    <<TK("function"), TI("f")>> \o PAR(<<>>) \o BRC(<<TK("return"), TP(";")>>),
+    <<TK("function"), TI("f")>> \o PAR(<<>>) \o BRC(<<TK("while")>> \o PAR(<<TI("a")>>) \o <<TK("break"), TP(";")>>),
+    PAR(<<TK("function")>> \o PAR(<<>>) \o BRC(<<TK("return"), TI("a"), TP(";")>>)) \o <<TP(";")>>,
+    <<TI("x"), TP("="), TK("function")>> \o PAR(<<>>) \o BRC(<<TI("L"), TP(":"), TK("for")>> \o PAR(<<TP(";"), TP(";")>>) \o <<TK("continue"), TI("L"), TP(";")>>) \o <<TP(";")>>,
+    <<TK("try")>> \o BRC(<<>>) \o <<TK("finally")>> \o BRC(<<>>),
+    <<TK("with")>> \o PAR(<<TI("a")>>) \o BRC(<<>>),
+    <<TK("if")>> \o PAR(<<TI("a")>>) \o BRC(<<>>) \o <<TK("else")>> \o BRC(<<>>)
+  >>
+JumpPool == <<
+    <<TK("break"), TP(";")>>, <<TK("continue"), TP(";")>>, <<TK("break"), TI("L"), TP(";")>>, <<TK("continue"), TI("L"), TP(";")>>,
+    <<TK("return"), TP(";")>>, <<TK("return"), TI("a"), TP(";")>>, <<TI("L"), TP(":"), TP(";")>>
+  >>
+FnH(b) == <<TK("function"), TI("h")>> \o PAR(<<>>) \o BRC(b)
+Placements == <<"after", "block", "if", "else", "try", "catch", "label", "fn", "fnexpr", "loop", "switch", "before", "twice", "case">>
+Place(cx, jp, pl) ==
+    CASE pl = "after" -> cx \o jp
+      [] pl = "block" -> cx \o BRC(jp)
+      [] pl = "if" -> cx \o <<TK("if")>> \o PAR(<<TI("a")>>) \o jp
+      [] pl = "else" -> cx \o <<TK("if")>> \o PAR(<<TI("a")>>) \o <<TP(";"), TK("else")>> \o BRC(jp)
+      [] pl = "try" -> cx \o <<TK("try")>> \o BRC(jp) \o <<TK("finally")>> \o BRC(<<>>)
+      [] pl = "catch" -> cx \o <<TK("try")>> \o BRC(<<>>) \o <<TK("catch")>> \o PAR(<<TI("e")>>) \o BRC(jp)
+      [] pl = "label" -> cx \o <<TI("M"), TP(":")>> \o BRC(jp)
+      [] pl = "fn" -> cx \o <<TK("function"), TI("g")>> \o PAR(<<>>) \o BRC(jp)
+      [] pl = "fnexpr" -> cx \o <<TI("y"), TP("="), TK("function")>> \o PAR(<<>>) \o BRC(jp) \o <<TP(";")>>
+      [] pl = "loop" -> cx \o <<TK("while")>> \o PAR(<<TI("b")>>) \o BRC(jp)
+      [] pl = "switch" -> cx \o <<TK("switch")>> \o PAR(<<TI("b")>>) \o BRC(<<TK("default"), TP(":")>> \o jp)
+      [] pl = "before" -> jp \o cx
+      [] pl = "twice" -> cx \o cx \o jp
+      [] pl = "case" -> <<TK("switch")>> \o PAR(<<TI("b")>>) \o BRC(<<TK("case"), TNum(<<50>>), TP(":")>> \o cx) \o jp
+AfterSeq(ci, ji, pi, inFn) ==
+    LET T == Place(CtxPool[ci], JumpPool[ji], Placements[pi]) IN IF inFn THEN FnH(T) ELSE T
+
+(* family "utf8": a source text that is not well-formed UTF-8 is no program  *)
+(* (clause 6); the error must be reported AT the first ill-formed byte:      *)
+(* line = 1 + the LineTerminatorSequences of 7.3 in front of it (CR LF is    *)
+(* one), column = 1 + the bytes between the last of them and the byte.  A    *)
+(* source unit 65536 + b stands for the raw byte b.                          *)
+RB(b) == 65536 + b
+BadSeqs == << <<RB(255)>>, <<RB(128)>>, <<RB(192), 32>>, <<RB(192), RB(128)>>, <<RB(226), RB(130)>>, <<RB(240), RB(159), RB(152)>>,
+              <<RB(237), RB(160), RB(128)>>, <<RB(254)>>, <<RB(191), RB(191)>>, <<RB(225)>> >>
+A1 == <<118, 97, 114, 32, 97, 32, 61, 32, 49, 59>>                         \* var a = 1;
+(* position classes: [pre, post]: text in front of and behind the ill-formed bytes *)
+Utf8Ctx == <<
+    [n |-> "file-start", pre |-> <<>>, post |-> <<32, 97, 59>>],
+    [n |-> "line-start-lf", pre |-> A1 \o <<10>>, post |-> <<10, 98, 59>>],
+    [n |-> "line-start-cr", pre |-> A1 \o <<13>>, post |-> <<>>],
+    [n |-> "line-start-crlf", pre |-> A1 \o <<13, 10>>, post |-> <<59>>],
+    [n |-> "line-start-ls", pre |-> A1 \o <<8232>>, post |-> <<32, 98>>],
+    [n |-> "line-start-ps", pre |-> A1 \o <<8233, 10, 10>>, post |-> <<>>],
+    [n |-> "after-token", pre |-> A1, post |-> <<>>],
+    [n |-> "after-token-space", pre |-> A1 \o <<32, 32>>, post |-> <<32, 98, 59>>],
+    [n |-> "third-line", pre |-> <<233, 59, 10>> \o A1 \o <<13, 10, 9, 98, 32, 61>>, post |-> <<59>>],
+    [n |-> "in-string", pre |-> <<120, 32, 61, 32, 34, 97, 98>>, post |-> <<99, 34, 59>>],
+    [n |-> "in-string-after-continuation", pre |-> <<120, 61, 39, 97, 92, 10, 98>>, post |-> <<39>>],
+    [n |-> "in-block-comment", pre |-> <<97, 59, 32, 47, 42, 32, 99>>, post |-> <<32, 42, 47, 32, 98, 59>>],
+    [n |-> "in-block-comment-line2", pre |-> <<47, 42, 10, 32, 42, 32>>, post |-> <<10, 42, 47>>],
+    [n |-> "in-line-comment", pre |-> <<97, 59, 32, 47, 47, 32>>, post |-> <<10, 98, 59>>],
+    [n |-> "in-regexp", pre |-> <<120, 32, 61, 32, 47, 97>>, post |-> <<98, 47, 103, 59>>],
+    [n |-> "in-regexp-class", pre |-> <<120, 61, 47, 91, 97>>, post |-> <<93, 47>>],
+    [n |-> "in-identifier", pre |-> <<97, 98>>, post |-> <<99, 32, 61, 32, 49, 59>>],
+    [n |-> "after-dot", pre |-> <<97, 46>>, post |-> <<98>>],
+    [n |-> "in-number", pre |-> <<120, 61, 49, 50>>, post |-> <<51, 59>>],
+    [n |-> "after-operator", pre |-> <<97, 32, 43>>, post |-> <<98>>],
+    [n |-> "in-object-literal", pre |-> <<120, 61, 123, 97, 58>>, post |-> <<125>>],
+    [n |-> "in-function-body", pre |-> <<102, 117, 110, 99, 116, 105, 111, 110, 32, 102, 40, 41, 123, 10, 114, 101, 116, 117, 114, 110, 32>>, post |-> <<59, 125>>],
+    [n |-> "after-unterminated-string", pre |-> <<34, 97, 10, 98>>, post |-> <<>>],
+    [n |-> "after-error", pre |-> <<41, 41, 32>>, post |-> <<32, 40>>]
+  >>
+RECURSIVE LineColAt(_, _, _, _)
+LineColAt(u, i, line, col) ==      \* position of the byte that follows the (ASCII-on-its-last-line) text u
+    IF i > Len(u) THEN [line |-> line, col |-> col]
+    ELSE IF u[i] = 13 THEN (IF i < Len(u) /\ u[i + 1] = 10 THEN LineColAt(u, i + 2, line + 1, 1) ELSE LineColAt(u, i + 1, line + 1, 1))
+    ELSE IF u[i] \in {10, 8232, 8233} THEN LineColAt(u, i + 1, line + 1, 1)
+    ELSE LineColAt(u, i + 1, line, col + (IF u[i] < 128 THEN 1 ELSE IF u[i] < 2048 THEN 2 ELSE 3))
+Utf8Line(ci, bi) ==
+    LET cx == Utf8Ctx[ci] IN
+    [fam |-> "utf8", tag |-> cx.n, src |-> cx.pre \o BadSeqs[bi] \o cx.post, exp |-> [c |-> "reject", prog |-> <<>>], dev |-> <<>>, bug |-> "",
+     pos |-> LineColAt(cx.pre, 1, 1, 1)]
+
 MInit == cs = None /\ blk \in {<<f, j>> : f \in Fams, j \in 1..NSeeds}
 MNext ==
     /\ cs = None
@@ -125,9 +226,15 @@ MNext ==
     /\ LET T == Seeds[blk[2]] IN
        CASE blk[1] = "mut" -> \E m \in MutsOf(T) \cup Sub(BigMutsOf(T)) : cs' = [t |-> "mut", fam |-> "mut", T |-> T, m |-> m]
          [] blk[1] = "early" -> blk[2] > NSeeds - Len(EarlyPool) /\ cs' = [t |-> "seq", fam |-> "early", T |-> T]
+         [] blk[1] = "after" -> blk[2] <= Len(CtxPool) /\ \E ji \in 1..Len(JumpPool), pi \in 1..Len(Placements), inFn \in BOOLEAN :
+                                    cs' = [t |-> "after", fam |-> "after", T |-> AfterSeq(blk[2], ji, pi, inFn), tag |-> Placements[pi]]
+         [] blk[1] = "utf8" -> blk[2] <= Len(Utf8Ctx) /\ \E bi \in 1..Len(BadSeqs) : cs' = [t |-> "utf8", fam |-> "utf8", ci |-> blk[2], bi |-> bi]
 MLines(c) ==
     IF c.t = "mut" THEN LET T2 == Mutate(c.T, c.m) IN <<Spec0("mut", c.m.k, T2, MutSeps(T2, c.m), FALSE, <<>>)>>
+    ELSE IF c.t = "after" THEN <<Spec0("after", c.tag, c.T, AllSep(Len(c.T), "sp"), FALSE, <<>>), Spec0("after", c.tag, c.T, NLAll(Len(c.T), 1 + ((Len(c.T) + Salt) % NLK)), FALSE, <<>>)>>
     ELSE SeqCases(c.fam, c.T)
 MEmit ==
-    cs = None \/ LET ls == MLines(cs) IN \A j \in 1..Len(ls) : PrintT("VJSON " \o ToJson(Line(ls[j])))
+    cs = None
+    \/ (cs.t = "utf8" /\ PrintT("VJSON " \o ToJson(Utf8Line(cs.ci, cs.bi))))
+    \/ (cs.t # "utf8" /\ LET ls == MLines(cs) IN \A j \in 1..Len(ls) : PrintT("VJSON " \o ToJson(Line(ls[j]))))
 =============================================================================
